@@ -39,6 +39,7 @@ type C16Op struct {
 }
 
 type C16Case struct {
+	Path int `json:"path,omitempty"` // index into c16Paths
 	// Sched: schedule vector for goroutines / channels / select choices of the code under test (single-task case body = first task)
 	Sched   []uint16 `json:"sched,omitempty"`
 	Max     int      `json:"max"`     // constructor argument
@@ -80,6 +81,7 @@ func genC16(rt *rapid.T) C16Case {
 		return c
 	}
 	c.Max = rapid.SampledFrom([]int{1, 2, 3, 5, 100, 0, -4}).Draw(rt, "max")
+	c.Path = rapid.IntRange(0, len(c16Paths)-1).Draw(rt, "path")
 	pool := []string{"disk usage", "git commit", "compress files", "find large files", "Disk Usage", "x", "größe anzeigen", "tab\tnew\nline", "quote\"back\\slash", "", " ", "bad\xffutf8"}
 	nq := rapid.IntRange(1, 5).Draw(rt, "nq")
 	for i := 0; i < nq; i++ {
@@ -124,7 +126,11 @@ type histEntry struct {
 	ts  time.Time
 }
 
-const c16Path = "/home/u/.config/wtf/search_history.json"
+const c16DefaultPath = "/home/u/.config/wtf/search_history.json"
+
+// c16Paths: where the history file lives is the caller's choice (the CLI derives it from XDG_CONFIG_HOME / HOME): names
+// with pattern metacharacters, spaces, non-ASCII, a directory that does not exist yet
+var c16Paths = []string{c16DefaultPath, c16DefaultPath, c16DefaultPath, "/home/u/cfg [old/wtf/search_history.json", "/home/u/c*fg/wtf/h?story.json", "/home/u/my config/wtf/history file.json", "/home/u/k\u00f6nfig/wtf/h.json", "/home/u/a]b[c/h{1,2}.json", "/home/u/work/not yet there/deep/er/history.json"}
 
 func entriesOf(sh *history.SearchHistory) []histEntry {
 	out := make([]histEntry, len(sh.Entries))
@@ -265,6 +271,7 @@ func runC16(c C16Case) *Outcome {
 }
 
 func runC16Body(c C16Case) *Outcome {
+	c16Path := c16Paths[c.Path%len(c16Paths)]
 	o := &Outcome{Probes: map[string]int{}}
 	if c.CLI != nil {
 		return runC16CLI(c.CLI, o)
@@ -279,7 +286,7 @@ func runC16Body(c C16Case) *Outcome {
 	simos.SetClock(simtime.Now)
 	var log []string
 	fail := func(sig, f string, a ...any) *Outcome {
-		o.Violation = fmt.Sprintf(f, a...) + "\n  history: " + strings.Join(log, " ; ")
+		o.Violation = fmt.Sprintf(f, a...) + "\n  history file " + strconv.Quote(c16Path) + "\n  history: " + strings.Join(log, " ; ")
 		o.Sig = "C16/" + sig
 		o.Digest = digestOf(log)
 		return o
